@@ -6,6 +6,7 @@ import (
 	"errors"
 	"fmt"
 	"math"
+	"math/big"
 	"strconv"
 	"strings"
 
@@ -616,63 +617,52 @@ func (exec *Executor) executeDecimalMethod(
 		}
 	}
 
-	// Round to the scale. A scale so large that ratio or num*ratio overflows
-	// is beyond the precision of num, which is then already rounded to it;
-	// one so small that ratio underflows rounds everything to zero.
-	rounded := num
-	switch ratio := math.Pow10(scale); {
-	case ratio == 0:
-		rounded = 0
-	case !math.IsInf(ratio, 0) && !math.IsInf(num*ratio, 0):
-		// A scaled value of 2^53 or more has no fraction left to round, and
-		// dividing it back would only add a rounding error.
-		if scaled := num * ratio; math.Abs(scaled) < 1<<53 {
-			rounded = math.Round(scaled) / ratio
-		}
-	}
-
-	if math.IsInf(rounded, 0) || math.IsNaN(rounded) {
-		return 0, fmt.Errorf(
-			`%w: argument "%v" of jsonpath item method %v is invalid for type %v`,
-			ErrVerbose, value, op, "numeric",
-		)
-	}
-
-	// Count the digits before the decimal point or, for a fraction, the
-	// zeros between the decimal point and the first digit as a negative count.
-	numStr := strconv.FormatFloat(rounded, 'f', -1, 64)
-	count := 0
-	fraction := false
-	for _, ch := range numStr {
-		if ch == '.' {
-			if count > 0 {
-				break
-			}
-			fraction = true
-			continue
-		}
-		if fraction {
-			if ch != '0' {
-				break
-			}
-			count--
-			continue
-		}
-		// Every digit from the first non-zero one counts.
-		if '1' <= ch && ch <= '9' || ch == '0' && count > 0 {
-			count++
-		}
-	}
-
-	// Make sure it's got no more than precision digits. When the scale
-	// exceeds the precision that requires zeros after the decimal point.
-	if rounded != 0 && count > precision-scale {
+	// Round to the scale and make sure that no more than precision digits
+	// are left.
+	rounded, ok := roundDecimal(num, precision, scale)
+	if !ok {
 		return 0, fmt.Errorf(
 			`%w: argument "%v" of jsonpath item method %v is invalid for type %v`,
 			ErrVerbose, value, op, "numeric",
 		)
 	}
 	return rounded, nil
+}
+
+// roundDecimal rounds num to scale decimal places, halves away from zero. It
+// works in exact arithmetic on the decimal number that num is written as (the
+// shortest text that denotes it, as in JSON), so that neither the scaling nor
+// the rounding depend on how the powers of ten and the digits of num are
+// approximated in binary. It returns the float64 nearest to the result and
+// whether the result has no more than precision digits, that is whether its
+// magnitude is below 10^(precision-scale), and is a finite float64.
+func roundDecimal(num float64, precision, scale int) (float64, bool) {
+	val, ok := new(big.Rat).SetString(strconv.FormatFloat(num, 'g', -1, 64))
+	if !ok {
+		return 0, false
+	}
+
+	ten := big.NewInt(10) //nolint:mnd
+	unit := new(big.Rat).SetInt(new(big.Int).Exp(ten, big.NewInt(int64(max(scale, -scale))), nil))
+	if scale < 0 {
+		unit.Inv(unit)
+	}
+
+	// The rounded value is digits / 10^scale, where digits is the integer
+	// nearest to num * 10^scale, halves away from zero.
+	scaled := val.Mul(val, unit)
+	negative := scaled.Sign() < 0
+	scaled.Abs(scaled).Add(scaled, big.NewRat(1, 2)) //nolint:mnd
+	digits := new(big.Int).Quo(scaled.Num(), scaled.Denom())
+	if digits.Cmp(new(big.Int).Exp(ten, big.NewInt(int64(precision)), nil)) >= 0 {
+		return 0, false
+	}
+	if negative {
+		digits.Neg(digits)
+	}
+
+	rounded, _ := new(big.Rat).Quo(new(big.Rat).SetInt(digits), unit).Float64()
+	return rounded, !math.IsInf(rounded, 0)
 }
 
 // decimalArgErr returns err, raised for a precision or scale of .decimal()
